@@ -101,7 +101,9 @@ TOK = ["aa", "'", '"', "it's", "James'", '"q', 'q"', "'q", "q'", '"q r"', "'q r'
        "`it's \"c\"`", "[l \"k\"](u'v \"t's\")", "<http://u/it's>", "http://u.v/it's", '<a title="x" alt=\'y\'>', "{% t a=\"x\" b='y' %}", "{{ v|f('x') }}",
        "<!-- it's \"c\" -->", "*it's*", "**\"b\"**", "(\"p\")", "—\"d\"", "\"q\".",
        # appended later: sentence ends that involve a closing quote (the sentence heuristic wants two letters before it)
-       "\"the plan\".", "plan\".", "'so'!", "(\"ok.\")"]
+       "\"the plan\".", "plan\".", "'so'!", "(\"ok.\")",
+       # appended later: scheme-less bare URLs and e-mail autolinks (their text differs from their destination)
+       "www.u.v/O'Reilly", "www.u.v/it's", "<o'r@b.cc>"]   # (a URL written as link TEXT is prose: not included)
 REPS = [TOK.index(t) for t in ("aa", "it's", '"q', 'q"', '"q r"', "`it's \"c\"`", "{% t a=\"x\" b='y' %}", "**\"b\"**", "<http://u/it's>")]
 
 _PROTECT = re.compile(
